@@ -135,7 +135,8 @@ OpsNow ==
                             (* bucket (C05) never withholds the draw request                     *)
                             (* set_position also to a value beyond the length of the generated bars (3) *)
                             -> { ([n |-> k] @@ BarOp(nm, b, IF dt < 1000 THEN 1000 ELSE dt)) : k \in (IF nm = "set_position" THEN {1, 5} ELSE {1}) }
-                       [] nm = "iter" -> { ([n |-> 2] @@ BarOp(nm, b, dt)) }
+                       (* a wrapped iterator over two items, exhausted by a for loop or by internal iteration (count, for_each: Iterator::fold) *)
+                       [] nm = "iter" -> { ([n |-> 2, how |-> hw] @@ BarOp(nm, b, dt)) : hw \in {"for", "count", "for_each"} }
                        [] nm \in {"set_message", "set_prefix", "finish_with_message", "abandon_with_message"}
                             -> { ([m |-> Shape(s, base)] @@ BarOp(nm, b, dt)) : s \in MsgShapes }
                        [] nm \in {"println", "suspend"}
